@@ -204,6 +204,57 @@ def rule_r3(chk, facts, P):
         chk.ob('C11-R3', 'as.c:%s:parameter-tokens' % side, bool(nonconst), 'as.c', '%d parameter sites numbered by position' % len(nonconst))
 
 
+def _interval(e, env):
+    e = nocast(e)
+    c = const_val(e)
+    if c is not None:
+        return (c, c)
+    if e[0] in ('p', 'l') and e[1] in env:
+        return env[e[1]]
+    if e[0] == 'b':
+        a, b = _interval(e[2], env), _interval(e[3], env)
+        if a is None or b is None:
+            return None
+        if e[1] == '+':
+            return (a[0] + b[0], a[1] + b[1])
+        if e[1] == '>>' and b[0] == b[1]:
+            return (a[0] >> b[0], a[1] >> b[0])
+        if e[1] == '&' and b[0] == b[1]:
+            return (0, min(a[1], b[0])) if a[1] > b[0] else (a[0] & b[0], a[1] & b[0])
+        if e[1] == '|' and b[0] == b[1]:
+            return (b[0], max(a[1] | b[0], b[0]))
+    return None
+
+
+def rule_r3b(chk, facts, P):
+    """A stored body line is a byte string in which every parameter occurrence is a two-byte token; the expander looks
+    for one token at a time with a plain substring search.  That is only sound if no token can appear across the
+    boundary of two adjacent tokens, i.e. if first and second token bytes come from disjoint value ranges."""
+    f = facts.func('asmsub.c', 'SetToken')
+    u = facts.unit('as.c')
+    amax = None
+    for fn in u.funcs.values():
+        for b, i, ln, c in fn.calls('ExpandLine'):
+            v = const_val(c[2][1])
+            if v is not None:
+                amax = max(amax or 0, v)
+    if amax is None:
+        raise AnalysisBroken('largest token number not found')
+    env = {f.params[1]['name']: (1, amax)}
+    rng = {}
+    for b, i, ln, m in f.nodes():
+        if is_assign(m) and m[1] == '=' and strip(m[2])[0] == 'i' and const_val(strip(m[2])[2]) in (0, 1):
+            rng[const_val(strip(m[2])[2])] = _interval(m[3], env)
+    if rng.get(0) is None or rng.get(1) is None:
+        raise AnalysisBroken('SetToken: token byte expressions not understood')
+    (a0, a1), (b0, b1) = rng[0], rng[1]
+    ok = a1 < b0 or b1 < a0
+    chk.ob('C11-R3', 'asmsub.c:SetToken:self-synchronising', ok, f.loc(),
+           'first byte %d..%d, second byte %d..%d: disjoint' % (a0, a1, b0, b1) if ok else
+           'first token byte ranges over %d..%d and second over %d..%d: the second byte of one token followed by the first '
+           'byte of the next can itself be a token, so adjacent parameters (\\p16\\\\p17\\) are mis-substituted' % (a0, a1, b0, b1))
+
+
 def rule_r4(chk, facts, P):
     chk.rule('C11-R4', 'wherever a NUL-terminated dynamic string (as_dynstr) is grown on demand, the test against its '
              'capacity counts the terminator: "needed + 1 > capacity" or "needed >= capacity"', min_instances=4)
@@ -446,6 +497,7 @@ def run(chk, facts, info):
     rule_r1(chk, facts, P)
     rule_r2(chk, facts, P)
     rule_r3(chk, facts, P)
+    rule_r3b(chk, facts, P)
     rule_r4(chk, facts, P)
     rule_r5(chk, facts, P)
     rule_r6(chk, facts, P)
